@@ -260,6 +260,38 @@ impl Property for C04 {
             // and the compiler's program, re-encoded independently, must load as itself
             let proj = project(&p).map_err(|e| Violation::new("projection-failed", e, case()))?;
             reader_conformance(&proj.model, &case, ctx)?;
+            // interoperation: the same program as another writer might lay it out - the entry
+            // method first (constant #0) and ending in `return` - must load as the same program,
+            // which shows when it is run by the real loop
+            if tape_sample(tape, 8) {
+                let base = fmlrun::run_stepped(&p, 300_000);
+                if !matches!(base.exec, fmlrun::Exec::Runaway) {
+                    let mut m2 = proj.model.clone();
+                    let e = m2.entry as usize;
+                    if let Const::Method { code, .. } = &mut m2.consts[e] {
+                        code.push(crate::bc::model::Ins::Return);
+                    }
+                    let m2 = m2.with_const_moved(e, 0);
+                    let img = writer::write(&m2);
+                    ctx.label("entry-first-layout-executed");
+                    match fmlrun::load(&img) {
+                        Ok(p2) => {
+                            let r = fmlrun::run_loop(&p2);
+                            if r.out != base.out || r.exec.class() != base.exec.class() {
+                                return ctx.settle(
+                                    Violation::new(
+                                        "reader-layout",
+                                        format!("the same program written with its entry method first (and ending in return) behaves differently once loaded:\ncompiler's layout {:?} {:?}\nentry-first layout {:?} {:?}", base.exec, base.out.chars().take(200).collect::<String>(), r.exec, r.out.chars().take(200).collect::<String>()),
+                                        case(),
+                                    )
+                                    .with("origin", "entry-first"),
+                                );
+                            }
+                        }
+                        Err(e) => return ctx.settle(Violation::new("reader-layout", format!("FML cannot load the entry-first layout of a compiler output: {}", e), case()).with("origin", "entry-first")),
+                    }
+                }
+            }
             // the file as the command line emits it (`fml parse -o`, `fml compile -o`), written again
             // and again to the SAME path by programs of different sizes: it must be exactly the
             // image, with nothing left over from an earlier, longer file
